@@ -71,11 +71,22 @@ pub fn undecodable(salt: u64) -> [u8; 32] {
     }
 }
 
+/// seed classes: 0 none; 1, 2 unrelated seeds; 3 = seed 1 with only its LAST byte changed; 4 = seed 1 with only its FIRST byte changed
 pub fn seed_scalar(class: u64, run_seed: u64) -> Option<Scalar> {
-    if class == 0 {
-        None
-    } else {
-        Some(hash_scalar(&[b"bppv-seed", &class.to_le_bytes(), &run_seed.to_le_bytes()]))
+    match class {
+        0 => None,
+        3 | 4 => {
+            let base = hash_scalar(&[b"bppv-seed", &1u64.to_le_bytes(), &run_seed.to_le_bytes()]).to_bytes();
+            let mut b = base;
+            if class == 3 {
+                // canonical scalars have a top byte of at most 0x10: stay below 2^252 and differ from the original
+                b[31] = if base[31] & 0x0f == 0x05 { 0x06 } else { 0x05 };
+            } else {
+                b[0] ^= 1;
+            }
+            Option::<Scalar>::from(Scalar::from_canonical_bytes(b)).or(Some(Scalar::from(class)))
+        },
+        _ => Some(hash_scalar(&[b"bppv-seed", &class.to_le_bytes(), &run_seed.to_le_bytes()])),
     }
 }
 
@@ -371,6 +382,12 @@ pub fn run_scenario(
             },
             "blind" => openings[wj].1[t - 1] += Scalar::ONE,
             "value" => openings[wj].0 ^= 1,
+            // two openings wrong in compensating ways: positions wj, wj + 1
+            "swap" => openings.swap(wj, wj + 1),
+            "shift" => {
+                openings[wj].0 = openings[wj].0.wrapping_add(1);
+                openings[wj + 1].0 = openings[wj + 1].0.wrapping_sub(1);
+            },
             "forge" => {},
             _ => panic!("unknown witness deviation {}", wk),
         }
